@@ -111,7 +111,8 @@ impl Address {
     }
 
     pub(super) fn check_user(user: &str) -> Result<(), AddressError> {
-        if EmailAddress::is_valid_local_part(user) {
+        // a horizontal tab is allowed in an RFC 5322 quoted-string but not in an SMTP one
+        if EmailAddress::is_valid_local_part(user) && !user.contains('\t') {
             Ok(())
         } else {
             Err(AddressError::InvalidUser)
